@@ -8,8 +8,11 @@ import (
 	"math/big"
 	"strconv"
 	"strings"
+	"time"
 
+	"github.com/iden3/go-merkletree-sql/v2"
 	"github.com/iden3/go-schema-processor/v2/merklize"
+	"github.com/piprate/json-gold/ld"
 )
 
 func collectLits(n *ANode, out *[]*ALit) {
@@ -266,6 +269,9 @@ func genC03(out *Out, r *Rng, tier string, n int, shard int) {
 			continue
 		}
 		root0 := run.Mz.Root().BigInt().String()
+		if i%3 == 0 {
+			emitC03CallerTree(out, r, doc0, hs, loader, run)
+		}
 		nren := 0
 		bag0 := entryBag(run.Mz)
 		for j := 0; j < k+kx; j++ {
@@ -427,3 +433,59 @@ func trunc(s string, n int) string {
 }
 
 func init() { gens["C03"] = genC03 }
+
+// emitC03CallerTree: merklizing into a tree the caller provides (WithMerkleTree). The entries are added to that very tree:
+// an empty one ends with the root of the default run, one that held a leaf before holds that leaf and every entry
+// afterwards (model: Mz.merklize with t0, Props.C02.merklize_into_caller_tree).
+func emitC03CallerTree(out *Out, r *Rng, doc []byte, hs HSpec, loader ld.DocumentLoader, run MzRun) {
+	ctx := context.Background()
+	var why []string
+	root0 := run.Mz.Root().BigInt()
+	// the order of the options is varied by hand here
+	mk := func(mt *merkletree.MerkleTree) (*merklize.Merklizer, error) {
+		opts := []merklize.MerklizeOption{merklize.WithDocumentLoader(loader), merklize.WithHasher(hs.H), merklize.WithMerkleTree(merklize.MerkleTreeSQLAdapter(mt))}
+		var sh []merklize.MerklizeOption
+		for _, i := range r.Perm(len(opts)) {
+			sh = append(sh, opts[i])
+		}
+		return guard(10*time.Second, func() (*merklize.Merklizer, error) { return merklize.MerklizeJSONLD(ctx, bytes.NewReader(doc), sh...) })
+	}
+	// (a) an empty tree
+	ta := mustTree()
+	if mz, err := mk(ta); err != nil {
+		why = append(why, "merklizing into an empty caller tree fails: "+err.Error())
+	} else if ta.Root().BigInt().Cmp(root0) != 0 || mz.Root().BigInt().Cmp(root0) != 0 {
+		why = append(why, fmt.Sprintf("merklizing into an empty caller tree: the tree's root is %v, the merklizer's %v, the default run's %v", trunc(ta.Root().BigInt().String(), 24), trunc(mz.Root().BigInt().String(), 24), trunc(root0.String(), 24)))
+	}
+	// (b) a tree that holds a leaf of the caller's
+	tb := mustTree()
+	k0, v0 := new(big.Int).SetUint64(r.U64()>>4), new(big.Int).SetUint64(r.U64()>>4)
+	if tb.Add(ctx, k0, v0) == nil {
+		mz, err := mk(tb)
+		if err != nil {
+			why = append(why, "merklizing into a caller tree with one leaf fails: "+err.Error())
+		} else {
+			if mz.Root().BigInt().Cmp(tb.Root().BigInt()) != 0 {
+				why = append(why, "the merklizer's root is not the root of the tree it was given")
+			}
+			if len(run.Entries) > 0 && tb.Root().BigInt().Cmp(root0) == 0 {
+				why = append(why, "the caller's tree with its own leaf and the entries has the root of the entries alone")
+			}
+			if pr, _, err := tb.GenerateProof(ctx, k0, nil); err != nil || !pr.Existence || !merkletree.VerifyProof(tb.Root(), pr, k0, v0) {
+				why = append(why, "the leaf the caller's tree held before is no longer provable in it")
+			}
+			for _, e := range run.Entries {
+				kh, e1 := e.KeyMtEntry()
+				vh, e2 := e.ValueMtEntry()
+				if e1 != nil || e2 != nil {
+					continue
+				}
+				if pr, _, err := tb.GenerateProof(ctx, kh, nil); err != nil || !pr.Existence || !merkletree.VerifyProof(tb.Root(), pr, kh, vh) {
+					why = append(why, "an entry of the document is not a leaf of the caller's tree after merklization")
+					break
+				}
+			}
+		}
+	}
+	out.Emit(Case{Op: "none", In: J{"doc": string(doc), "callerTree": true}, Impl: okJ("merklized"), Prop: propOf(why), Tags: []string{"caller-tree", "h:" + hs.Name}, NT: true})
+}
